@@ -1,5 +1,6 @@
 import Hgxv.Model.Wire
 import Hgxv.Model.C02
+import Hgxv.Model.C02X
 /-! Line protocol for C02 (see `harness/c02.py`, which produces the same renderings from the real object).
 
 Arguments: node lists `1,2` (`-` empty); metadata `a:v,a:v` (`-` = `{}`, `N` = None); a hyperedge `S>T` with a side
@@ -18,7 +19,15 @@ Arguments: node lists `1,2` (`-` empty); metadata `a:v,a:v` (`-` = `{}`, `N` = N
   dig <slot> <U> <filters>   all queries, nodes 0..U, filters `a`,`s<k>`,`o<k>`,`b` comma-separated
       -> `label=value` items separated by one space; ` !spec:<label>` is appended when the abstract object
          (run in lock-step) answers differently
-  qe <slot> <e>   -> `check|weight|metadata` of one hyperedge -/
+  qe <slot> <e>   -> `check|weight|metadata` of one hyperedge
+  sub <slot> <U> <filter> <up_to 0|1> <sub 0|1> <keep 0|1> <metadata 0|1>
+      `get_edges` with all its options -> `rej` | `keys=..` | `emeta=..` | the digest (no filter) of the returned
+      hypergraph; ` !spec:sub` when `Spec.sub` of the abstract object is not the abstraction of the model's answer
+  setinc <slot> <e> <n> <md> -> `ok` | `rej`     (`set_incidence_metadata`)
+  getinc <slot> <e> <n> -> metadata | `rej`      (`get_incidence_metadata`)
+  allinc <slot> -> `S>T@n=metadata;...` sorted    (`get_all_incidences_metadata`)
+  raw <slot>   -> the raw tables (`expose_data_structures`, `get_edge_list`, `get_adj_dict`, `len`, `iter`, `str`,
+      `is_weighted`) IN THEIR ORDER: nothing is sorted here -/
 open Wire C02
 
 /-! ### parsing -/
@@ -200,6 +209,22 @@ def lookupStr (l : List (String × String)) (k : String) : Option String :=
 structure St where
   conc : State := []
   spec : List (Nat × Spec) := []
+  inc : List (Nat × IncTable) := []      -- `_incidences_metadata` of every slot (`Full` = slot of `conc` + this)
+
+def incOf (st : St) (slot : Nat) : IncTable := (AL.get? st.inc slot).getD []
+
+/-- the incidence tables after a base command (`Full.apply` for a call on a slot; constructor: empty; copy: copied) -/
+def incAfter (st : St) (c : Cmd) (accepted : Bool) : List (Nat × IncTable) :=
+  match c with
+  | .new slot _ _ _ _ _ _ => if accepted then AL.set st.inc slot [] else st.inc
+  | .copy a b => if accepted then AL.set st.inc b (incOf st a) else st.inc
+  | .op slot o =>
+    match AL.get? st.conc slot with
+    | some s => AL.set st.inc slot (Full.apply { base := s, inc := incOf st slot } (.base o)).1.inc
+    | none => st.inc
+
+def rInc (t : IncTable) : String :=
+  joinOr ";" "-" (sortStrs (t.map (fun p => rKey p.1.1 ++ "@" ++ toString p.1.2 ++ "=" ++ rMeta p.2)))
 
 def showOut : Out → String | .ok => "ok" | .rej => "rej"
 
@@ -229,12 +254,79 @@ def doStep (st : St) (toks : List String) : St × String :=
         (st, a ++ (if a == b then "" else " !spec:qe"))
       | _, _ => (st, "bad-slot")
     | _, _ => (st, "bad-op")
+  | ["sub", sl, u, f, up, sb, kp, md] =>
+    match sl.toNat?, u.toNat?, pFilt? f, pBool? up, pBool? sb, pBool? kp, pBool? md with
+    | some slot, some U, some fl, some upTo, some sub, some keep, some wm =>
+      match AL.get? st.conc slot, AL.get? st.spec slot with
+      | some s, some sp =>
+        match getEdgesCall s fl upTo sub keep wm with
+        | none => (st, "rej" ++ (if sub && ((sp.sub fl upTo keep).isSome || (sp.subHG fl upTo keep).isSome) then " !spec:sub" else ""))
+        | some (.keys l) => (st, "keys=" ++ rKeys l)
+        | some (.withMeta l) => (st, "emeta=" ++ rKeyMetas l)
+        | some (.hg h) =>
+          let dc := digestStore h U [.all]
+          (st, " ".intercalate (dc.map (fun p => p.1 ++ "=" ++ p.2)) ++
+               (if sp.sub fl upTo keep == some (abs h) then "" else " !spec:sub") ++
+               (if sp.subHG fl upTo keep == some (abs h) then "" else " !spec:subprog"))
+      | _, _ => (st, "bad-slot")
+    | _, _, _, _, _, _, _ => (st, "bad-op")
+  | ["setinc", sl, e, n, md] =>
+    match sl.toNat?, pEdge? e, n.toNat?, pMetaD? md with
+    | some slot, some re, some nd, some m =>
+      match AL.get? st.conc slot, AL.get? st.spec slot with
+      | some s, some sp =>
+        let r := Full.apply { base := s, inc := incOf st slot } (.setInc re nd m)
+        let q := FSpec.apply { base := sp, inc := incOf st slot } (.setInc re nd m)
+        ({ st with inc := AL.set st.inc slot r.1.inc },
+          showOut r.2 ++ (if r.2 == q.2 && fabs r.1 == { q.1 with base := abs s } then "" else " !spec:inc"))
+      | _, _ => (st, "bad-slot")
+    | _, _, _, _ => (st, "bad-op")
+  | ["getinc", sl, e, n] =>
+    match sl.toNat?, pEdge? e, n.toNat? with
+    | some slot, some re, some nd =>
+      match AL.get? st.conc slot, AL.get? st.spec slot with
+      | some s, some sp =>
+        let a := Full.getInc { base := s, inc := incOf st slot } re nd
+        let b := FSpec.getInc { base := sp, inc := incOf st slot } re nd
+        (st, rOpt rMeta a ++ (if a == b then "" else " !spec:inc"))
+      | _, _ => (st, "bad-slot")
+    | _, _, _ => (st, "bad-op")
+  | ["allinc", sl] =>
+    match sl.toNat? with
+    | some slot => (st, rInc (Full.allInc { base := (AL.get? st.conc slot).getD {}, inc := incOf st slot }))
+    | none => (st, "bad-op")
+  | ["raw", sl] =>
+    match sl.toNat? with
+    | some slot =>
+      match AL.get? st.conc slot with
+      | some s =>
+        let t := expose s
+        let rIds (l : List Nat) : String := joinOr "," "-" (l.map toString)
+        let rAdj (a : Adj) : String := joinOr "|" "-" (a.map (fun p => toString p.1 ++ "=" ++ rIds p.2))
+        let sp := strParts s
+        (st, " ".intercalate [
+          "w=" ++ rBool t.weighted, "next=" ++ toString t.nextId,
+          "el=" ++ joinOr ";" "-" (t.edgeList.map (fun p => rKey p.1 ++ "=" ++ toString p.2)),
+          "rev=" ++ joinOr ";" "-" (t.reverse.map (fun p => toString p.1 ++ "=" ++ rKey p.2)),
+          "wt=" ++ joinOr ";" "-" (t.weights.map (fun p => toString p.1 ++ "=" ++ toString p.2)),
+          "em=" ++ joinOr ";" "-" (t.edgeMeta.map (fun p => toString p.1 ++ "=" ++ rMeta p.2)),
+          "as=" ++ rAdj t.adjSource, "at=" ++ rAdj t.adjTarget,
+          "nm=" ++ joinOr "|" "-" (t.nodeMeta.map (fun p => toString p.1 ++ "=" ++ rMeta p.2)),
+          "hm=" ++ rMeta t.hmeta,
+          "gel=" ++ joinOr ";" "-" ((getEdgeList s).map (fun p => rKey p.1 ++ "=" ++ toString p.2)),
+          "gas=" ++ rAdj (getAdjDict s true), "gat=" ++ rAdj (getAdjDict s false),
+          "len=" ++ toString (len s), "isw=" ++ rBool (isWeighted s),
+          "iter=" ++ joinOr ";" "-" ((iterItems s).map (fun p => rKey p.1 ++ "=" ++ toString p.2)),
+          "str=" ++ toString sp.1 ++ "/" ++ toString sp.2.1 ++ "/" ++ rPairs sp.2.2])
+      | none => (st, "bad-slot")
+    | none => (st, "bad-op")
   | _ =>
     match parseCmd toks with
     | none => (st, "bad-op")
     | some c =>
       let r := step st.conc c
       let q := Spec.step st.spec c
-      ({ conc := r.1, spec := q.1 }, showOut r.2 ++ (if r.2 == q.2 then "" else " !spec:out"))
+      ({ conc := r.1, spec := q.1, inc := incAfter st c (r.2 == .ok) },
+        showOut r.2 ++ (if r.2 == q.2 then "" else " !spec:out"))
 
 def main : IO Unit := Wire.run doStep {}
